@@ -4,7 +4,7 @@
    inductives.  Run from this directory: coqc -Q ../theories Goag Extract.v *)
 Require Extraction.
 Require Import ExtrOcamlBasic.
-From Goag Require Import Base.Str Model.OutDir Model.GoLit Model.Router Model.Serve Model.Params Model.Json Model.OneOf Model.Client Model.Response Model.RespTypes Model.Naming Model.NilSafety Gen.HoleSites Model.Holes Model.UrlEscape Spec.RouterSpec Spec.ServeSpec Spec.JsonSpec.
+From Goag Require Import Base.Str Model.OutDir Model.GoLit Model.Router Model.Serve Model.Params Model.Json Model.OneOf Model.Client Model.Response Model.RespTypes Model.Naming Model.NilSafety Gen.HoleSites Model.Holes Model.UrlEscape Model.JsonString Spec.RouterSpec Spec.ServeSpec Spec.JsonSpec.
 
 (* stable names for the driver, whatever clashes extraction resolves by renaming *)
 Definition json_enc := Json.enc.
@@ -25,10 +25,12 @@ Definition url_parse_query := UrlEscape.parse_query.
 Definition url_sort_pairs := UrlEscape.sort_pairs.
 Definition client_wire_url := Client.client_wire.
 Definition header_canon_key := Serve.canon_key.
+Definition json_string_quote := JsonString.quote.
+Definition json_string_unquote := JsonString.unquote.
 Definition holes_ctx_after (s : Str.str) : HoleSites.hole_ctx := Holes.ctx_of (fst (Holes.lex Holes.LCode None s)).
 
 Extraction Language OCaml.
 Extraction "model.ml"
   OutDir.run_history OutDir.observe OutDir.spec_dir OutDir.empty_dir OutDir.write
   GoLit.encode GoLit.go_eval GoLit.embeddable
-  Serve.serve Serve.gen_accepts Params.parse_request json_enc json_dec json_keep oneof_enc oneof_dec oneof_single JsonSpec.validates Client.client_request resp_write resp_decode resp_select RespTypes.implementers Naming.public_field_name holes_comment holes_ctx_after url_path_escape url_query_escape url_unescape url_encode_query url_parse_query url_sort_pairs client_wire_url header_canon_key NilSafety.gen_front NilSafety.loader_inv ServeSpec.serve_spec RouterSpec.match_request Router.route_root Serve.gen_tree.
+  Serve.serve Serve.gen_accepts Params.parse_request json_enc json_dec json_keep oneof_enc oneof_dec oneof_single JsonSpec.validates Client.client_request resp_write resp_decode resp_select RespTypes.implementers Naming.public_field_name holes_comment holes_ctx_after url_path_escape url_query_escape url_unescape url_encode_query url_parse_query url_sort_pairs client_wire_url header_canon_key json_string_quote json_string_unquote NilSafety.gen_front NilSafety.loader_inv ServeSpec.serve_spec RouterSpec.match_request Router.route_root Serve.gen_tree.
